@@ -1,43 +1,16 @@
 /-
 Line-protocol driver: `<id> <op> <arg>*` in, `<id> <result>` out.  Core-only
-imports so that it links as a `lean_exe`.
+imports so that it links as a `lean_exe`.  Each model slice contributes one
+handler (Driver/H*.lean); the first handler that recognises the op answers.
 -/
-import CtyModel.Ty
-import CtyModel.TyJson
+import Driver.HTy
+import Driver.HVal
 open CtyModel
 
-def resTag {α} (f : α → String) : Res α → String
-  | .ok a => "ok " ++ f a
-  | .err _ => "err"
-  | .panic _ => "panic"
-  | .unmodelled => "unmodelled"
-
-def handleTy (op : String) (args : List Sexp) : Option String :=
-  match op, args with
-  | "ty.equals", [a, b] => do
-    let a ← Ty.ofSexp a; let b ← Ty.ofSexp b
-    pure (toString (Sexp.encBool (a.equals b)))
-  | "ty.conform", [w, g] => do
-    let w ← Ty.ofSexp w; let g ← Ty.ofSexp g
-    pure (toString (Ty.conformErrs w g))
-  | "ty.hasdyn", [a] => do
-    let a ← Ty.ofSexp a
-    pure (toString (Sexp.encBool a.hasDyn))
-  | "ty.stripopt", [a] => do
-    let a ← Ty.ofSexp a
-    pure (toString a.stripOpt.toSexp)
-  | "ty.json", [a] => do
-    let a ← Ty.ofSexp a
-    pure (match a.toJson with
-      | .ok j => toString j.toSexp
-      | _ => "err")
-  | "ty.ofjson", [j] => do
-    let j ← Json.ofSexp j
-    pure (resTag (fun t => toString t.toSexp) (Ty.ofJson id j))
-  | _, _ => none
+def handlers : List Handler := [handleTy, handleVal]
 
 def handle (op : String) (args : List Sexp) : String :=
-  match handleTy op args with
+  match handlers.findSome? (fun h => h op args) with
   | some s => s
   | none => "bad-op"
 
